@@ -10,6 +10,12 @@ AddrsAll == {A00, A01, U10, U11, U20}
 AddrsGlobal == {A00, A01}
 AddrsMixed == {A00, A01, U10}
 AddrsUni == {A00, U10, U20}
+AddrsA0 == {A00}
+AddrsA1 == {A01}
+AddrsA0U0 == {A00, U10}
+AddrsA0U1 == {A00, U11}
+AddrsA1U1 == {A01, U11}
+AddrsU == {U10, U11}
 EmitEdge == PrintT(<<"VFEDGE", ToJson([s |-> st, op |-> op', t |-> st'])>>)
 EmitSeq == Sequential /\ EmitEdge
 MCInit == Init /\ PrintT(<<"VFINIT", ToJson(st)>>)
